@@ -10,7 +10,7 @@ PROVEN, REFUTED, UNDECIDED = "PROVEN", "REFUTED", "UNDECIDED"
 
 
 class Obligation:
-    __slots__ = ("rule", "fn", "sig", "verdict", "loc", "msg", "detail", "ordinal", "variant")
+    __slots__ = ("rule", "fn", "sig", "verdict", "loc", "msg", "detail", "ordinal", "variant", "group")
 
     def __init__(self, rule, fn, sig, verdict, loc, msg, detail=None, variant="default"):
         self.rule = rule
@@ -22,6 +22,10 @@ class Obligation:
         self.detail = detail or {}
         self.ordinal = 0
         self.variant = variant
+        self.group = None      # coarser identity for known findings that name "every site of this kind in this function"
+
+    def group_key(self):
+        return None if self.group is None else "%s|%s|%s|*" % (self.rule, self.fn, self.group)
 
     def key(self):
         return "%s|%s|%s|%d" % (self.rule, self.fn, self.sig, self.ordinal)
@@ -79,9 +83,25 @@ class Check:
     def undecided(self, rule, fn, sig, loc, msg, detail=None, variant="default"):
         return self.add(rule, fn, sig, UNDECIDED, loc, msg, detail, variant)
 
+    def shared(self):
+        """context manager: rules borrowed from another property's module are run without their instance floors (a vanished
+        anchor is that property's analysis-broken, not this one's)"""
+        chk = self
+
+        class _S:
+            def __enter__(self_):
+                chk._floors_off = getattr(chk, "_floors_off", 0) + 1
+
+            def __exit__(self_, *a):
+                chk._floors_off -= 1
+                return False
+        return _S()
+
     def floor(self, rule, measured, floor, what):
         """instance-count floor: fewer instances than confirmed by hand is analysis-broken"""
         self.floors[rule] = {"measured": measured, "floor": floor, "what": what}
+        if getattr(self, "_floors_off", 0):
+            return
         if measured < floor:
             # decided at finish(): a refuted obligation is reported first; with none, the run is analysis-broken
             self.floor_broken = getattr(self, "floor_broken", []) + [
@@ -104,6 +124,8 @@ class Check:
             if o.verdict != REFUTED:
                 continue
             k = known.get((o.key(), o.variant)) or known.get((o.key(), None))
+            if k is None and o.group_key() is not None:
+                k = known.get((o.group_key(), o.variant)) or known.get((o.group_key(), None))
             if k is not None and k.get("status") == "known":
                 known_hit.append((o, k))
             else:
@@ -126,8 +148,14 @@ class Check:
         for o in self.obls:
             if o.verdict == UNDECIDED:
                 print("[%s] UNDECIDED %s %s %s: %s" % (prop, o.rule, o.loc, o.fn, o.msg))
+        printed = set()
         for o, k in known_hit:
-            print("KNOWN-FINDING: property=%s %s [%s %s %s]" % (prop, k.get("what", o.msg), o.rule, o.loc, o.fn))
+            if id(k) in printed:
+                continue
+            printed.add(id(k))
+            sites = [x for x, kk in known_hit if kk is k]
+            print("KNOWN-FINDING: property=%s %s [%s %s %s%s]" % (prop, k.get("what", o.msg), o.rule, o.loc, o.fn,
+                                                                  (", %d sites" % len(sites)) if len(sites) > 1 else ""))
         vdir = os.path.join(VERIF, "evidence", "violations")
         os.makedirs(vdir, exist_ok=True)
         for f in os.listdir(vdir):
